@@ -21,5 +21,19 @@ if "<!-- SEEDTABLE -->" in s:
     s = re.sub(r"<!-- SEEDTABLE -->.*?<!-- /SEEDTABLE -->", "<!-- SEEDTABLE -->\n" + table + "\n<!-- /SEEDTABLE -->", s, flags=re.S)
 else:
     s = s.replace("(table generated below by selftest/seed_table.py)", "<!-- SEEDTABLE -->\n" + table + "\n<!-- /SEEDTABLE -->")
+# Appendix B: the model map (which Rust function is modelled by which Lean definition), from modelmap.json
+import subprocess
+mt = subprocess.run(["python3", os.path.join(VERIF, "anchors.py"), "--map-table"], capture_output=True, text=True).stdout.strip()
+if "<!-- MODELMAP -->" in s and mt:
+    s = re.sub(r"<!-- MODELMAP -->.*?<!-- /MODELMAP -->", lambda _: "<!-- MODELMAP -->\n" + mt + "\n<!-- /MODELMAP -->", s, flags=re.S)
+# model mutation summary
+rp = os.path.join(VERIF, "selftest", "model_mutation_report.json")
+if "<!-- MODELMUT -->" in s and os.path.exists(rp):
+    rep = json.load(open(rp))
+    lines = ["summary: " + ", ".join(f"{k} {v}" for k, v in sorted(rep["summary"].items())), "",
+             "| file:line | operator | outcome | first proof that breaks | mutated line |", "|---|---|---|---|---|"]
+    for r in rep["mutants"]:
+        lines.append(f"| {r['file']}:{r['line']} | {r['op']} | {r['outcome']} | {(r.get('failing') or ['-'])[0].replace('Toodee.', '')} | `{r['text'][:100].replace('|', '/')}` |")
+    s = re.sub(r"<!-- MODELMUT -->.*?<!-- /MODELMUT -->", lambda _: "<!-- MODELMUT -->\n" + "\n".join(lines) + "\n<!-- /MODELMUT -->", s, flags=re.S)
 open(p, "w").write(s)
 print(table)
